@@ -28,10 +28,10 @@ CHECKS = {
              "invariant over all accepted traces a thread is in at most one wait queue exactly while it sleeps there, and a free mutex has no "
              "thread parked inside lock() on it (never left stuck). Tied to the code by generated multi-thread programs run on the real "
              "runtime on a virtual clock with the acceptor validating every owner CAS, hand-off, park, wake-up and return value and the real "
-             "owner word compared at every quiescence point; an independent occupancy / stuck-on-free-mutex oracle supplies failing programs",
-        note="trusted: Lean kernel + 3 standard axioms; single vCPU: the segments between context switches are atomic, so the spinlock "
-             "protecting the slow path and the cross-vCPU races are NOT exercised or modelled here (sequentially consistent interleavings of "
-             "whole segments only); spinlock / ticket / queued spinlock exclusion between OS threads is not yet claimed; recursive mutex depth "
+             "owner word compared at every quiescence point; an independent occupancy / stuck-on-free-mutex oracle supplies failing programs Across vCPUs (harness mv_sync, real races on 2..4 OS-thread vCPUs): stamped logs of lock/unlock cycles, semaphore signal/wait incl. plain-OS-thread signallers and semaphores destroyed and overwritten as soon as wait() returns, and a mutex+condition-variable bounded buffer are validated by Lean acceptors (rwspec / semlog / ringlog, with theorems over all accepted histories); the PHOTON_VERIF build also reports whether the primitive's spinlock is held wherever the models treat a region as one atomic step",
+        note="trusted: Lean kernel + 3 standard axioms; the internal-event acceptor runs on ONE vCPU (the segments between context switches are atomic); "
+             "across vCPUs the claim rests on run-time validation of real races (PARTIAL: a violation needing a rare interleaving is found only with "
+             "some probability - e.g. unlocking without the spinlock is reported through the spinlock-held hook as a broken modelling assumption, not by a failing run); spinlock / ticket / queued spinlock exclusion between OS threads is not yet claimed; recursive mutex depth "
              "is exercised by the harness, its counter has no theorem",
         technique="Lean 4 inductive invariant over an acceptor of hook/API event traces + deterministic simulation of the real runtime",
         design="§5 C01"),
@@ -44,9 +44,10 @@ CHECKS = {
              "accepted only if no parked waiter's demand is covered by the count (head waiter in order, any waiter out of order). Tied to the "
              "code by generated programs run on the real runtime on a virtual clock with every count change, pass, wake-up and return "
              "validated and the real count compared at every quiescence point; an independent token-ledger / parked-waiter oracle supplies "
-             "failing programs",
-        note="trusted: Lean kernel + 3 standard axioms; single vCPU (signal() from plain OS threads and destroy-immediately-after-wait need "
-             "the multi-vCPU harness and are not exercised yet: that clause is not claimed); no-lost-wake-up is a guard of the acceptor at "
+             "failing programs Across vCPUs (harness mv_sync, real races on 2..4 OS-thread vCPUs): stamped logs of lock/unlock cycles, semaphore signal/wait incl. plain-OS-thread signallers and semaphores destroyed and overwritten as soon as wait() returns, and a mutex+condition-variable bounded buffer are validated by Lean acceptors (rwspec / semlog / ringlog, with theorems over all accepted histories); the PHOTON_VERIF build also reports whether the primitive's spinlock is held wherever the models treat a region as one atomic step",
+        note="trusted: Lean kernel + 3 standard axioms; the internal-event acceptor runs on ONE vCPU; signal() from plain OS threads, waits on other "
+             "vCPUs and destroy-immediately-after-wait are exercised by real multi-vCPU races only (PARTIAL: sampled interleavings; the destroyed "
+             "semaphore is watched through a byte pattern, not ASan); no-lost-wake-up is a guard of the acceptor at "
              "quiescence points (a theorem about accepted traces), its truth for the code is what the trace validation establishes; uint64 "
              "overflow of the count excluded",
         technique="Lean 4 inductive invariant over an acceptor of hook/API event traces + deterministic simulation of the real runtime",
@@ -59,10 +60,10 @@ CHECKS = {
              "notify_all wakes exactly those present; wait() returns with the lock held and its result is the translation of how the waiter "
              "was woken (0 iff notified, -1/ETIMEDOUT iff the sleep timed out - by C04 only at or after the deadline). Tied to the code by "
              "generated programs on the real runtime on a virtual clock with every event validated; an independent API-level oracle (lock held "
-             "at enqueue and at return, notify counts, 0 only if notified) supplies failing programs",
-        note="trusted: Lean kernel + 3 standard axioms; single vCPU; the mutex variant is followed through its hook events, the spinlock "
-             "variant of wait() is exercised by the harness only (no hook on spinlock release yet); cross-vCPU notification races need the "
-             "multi-vCPU harness",
+             "at enqueue and at return, notify counts, 0 only if notified) supplies failing programs Across vCPUs (harness mv_sync, real races on 2..4 OS-thread vCPUs): stamped logs of lock/unlock cycles, semaphore signal/wait incl. plain-OS-thread signallers and semaphores destroyed and overwritten as soon as wait() returns, and a mutex+condition-variable bounded buffer are validated by Lean acceptors (rwspec / semlog / ringlog, with theorems over all accepted histories); the PHOTON_VERIF build also reports whether the primitive's spinlock is held wherever the models treat a region as one atomic step",
+        note="trusted: Lean kernel + 3 standard axioms; the internal-event acceptor runs on ONE vCPU; the mutex variant is followed through its "
+             "hook events, the spinlock variant of wait() is exercised by the harness only; cross-vCPU notification is exercised by a bounded "
+             "buffer on real vCPUs (PARTIAL: sampled interleavings; a lost notification shows as a stall)",
         technique="Lean 4 theorems over an acceptor of hook/API event traces + deterministic simulation of the real runtime",
         design="§5 C03"),
     "C04": dict(
@@ -383,7 +384,7 @@ def main():
         setup_cmd="python3 setup.py",
         hooks=dict(guard="PHOTON_VERIF", enable="-DPHOTON_VERIF added to CMAKE_CXX_FLAGS / to the harness compile line by the checks",
                    baseline_off_cmd="cmake --build /repo/_build -j16 && ctest --test-dir /repo/_build -j8 --timeout 900",
-                   source_commits=["verification hooks (guard PHOTON_VERIF): common/verif-hook.h and hook points in thread.cpp/thread.h", "verification hooks (guard PHOTON_VERIF): SEM_PASS point at the start of semaphore::try_resume"], add_only=False),
+                   source_commits=["verification hooks (guard PHOTON_VERIF): common/verif-hook.h and hook points in thread.cpp/thread.h", "verification hooks (guard PHOTON_VERIF): SEM_PASS point at the start of semaphore::try_resume", "verification hooks (guard PHOTON_VERIF): GUARD points report whether the spinlock protecting a region of mutex / semaphore / qrwlock is held when the region is entered"], add_only=False),
         engines=[dict(name="lean4+diff", path="lean/ (lake project), harness/, checks/, check.py",
                       serves_properties=sorted(CHECKS),
                       kind_free_text="Lean 4 theorems about hand-written executable models; compiled model driver vs real C++ harness on the same inputs/traces")],
